@@ -7,13 +7,31 @@ import re
 DROP = {"source_span", "syntax_spans", "dest_span", "title_span", "inline_body", "link_ref_defs", "footnotes", "escape", "delimiters"}
 
 
-def parse(text: str):
+class ParseTimeout(Exception):
+    pass
+
+
+def parse(text: str, limit_s: int = 30):
+    """Marko's parse under a watchdog: a parser that does not return must not take the whole check with it"""
+    import signal
     from flowmark.formats.flowmark_markdown import flowmark_markdown
-    return flowmark_markdown().parse(text)
+
+    def on_alarm(signum, frame):
+        raise ParseTimeout(f"parser did not return within {limit_s} s")
+    try:
+        old = signal.signal(signal.SIGALRM, on_alarm)
+    except ValueError:          # not in the main thread: no watchdog available
+        return flowmark_markdown().parse(text)
+    prev = signal.setitimer(signal.ITIMER_REAL, limit_s)
+    try:
+        return flowmark_markdown().parse(text)
+    finally:
+        signal.setitimer(signal.ITIMER_REAL, prev[0] if prev and prev[0] > 0 else 0)
+        signal.signal(signal.SIGALRM, old)
 
 
 def to_tree(e) -> dict:
-    name = type(e).__name__
+    name = {"CustomFootnoteDef": "FootnoteDef"}.get(type(e).__name__, type(e).__name__)
     d = {"t": name}
     for k, v in vars(e).items():
         if k == "children" or k.startswith("_") or k in DROP:
